@@ -22,6 +22,11 @@ META: dict[str, dict[str, str]] = {
         "note": "Python call semantics (an omitted keyword takes the callee's default)." + COMMON_NOTE,
         "technique": "static analysis: call-graph triple enumeration with def-use check of forwarded arguments; non-commutative matrix normal form",
     },
+    "C16": {
+        "level": "Decides the cache protocol on every syntactic path through perform_cached_doit and its helpers (paths enumerated, helpers spliced in): a loaded value is returned only after an equality test against the query (all directory histories, colliding keys), load/open failures cannot propagate and lead to recomputation (all crash points that leave a partial file), the final name is published only by rename from a closed process-unique temporary (concurrent writers/readers). Does not decide SymPy's == or POSIX rename atomicity.",
+        "note": "Exception set of pickle.load per the Python documentation; os.replace atomic within a directory; mkstemp unique." + COMMON_NOTE,
+        "technique": "static analysis: structured path enumeration with inter-procedural splicing and a taint/typestate interpretation (load, key, verified, final, tmp)",
+    },
     "C14": {
         "level": "Decides the structural necessary conditions of the substitution/equality/folding laws for every @unevaluated class (enumerated from the AST): reconstruction hooks read arguments shallowly and completely, self.args unpackings match the field lists, the hash hook covers non-SymPy fields, folded classes print through their unfolding. Universal over argument shapes because it speaks about the hook code, not about sampled instances. Does not decide the laws for arbitrary values.",
         "note": "External-API table: dataclasses.astuple/asdict/copy.deepcopy are deep; Basic.subs/xreplace dispatch to _eval_subs/_xreplace." + COMMON_NOTE,
